@@ -245,6 +245,9 @@ func (c15) Exec(raw json.RawMessage, st *simrt.Stats, log *simrt.Log) *simrt.Vio
 		bs, rs := blockShare(j).Serialize(), beaconShare(j).Serialize()
 		switch m.Kind {
 		case "honest", "dup":
+			if m.Kind == "dup" {
+				st.Fault("byz_duplicate")
+			}
 			return c15Wire(bh.Hash, bh.Hash, bs, rs, idb)
 		case "otherhash":
 			st.Fault("byz_other_hash")
